@@ -41,9 +41,16 @@ def gauss_cases(draw, tier):
     kind = draw(st.sampled_from(['line', 'triangle', 'tetrahedron', 'square', 'cube', 'prism', 'prism2', 'tri-tri', 'tet-line', 'hypercube']))
     ref, factors = None, {'line': [1], 'triangle': [2], 'tetrahedron': [3], 'square': [1, 1], 'cube': [1, 1, 1], 'prism': [2, 1], 'prism2': [1, 2], 'tri-tri': [2, 2], 'tet-line': [3, 1], 'hypercube': [1, 1, 1, 1]}[kind]
     degree = draw(st.integers(0, min(MAXDEG[f] for f in factors)))
-    variant = draw(st.sampled_from(['plain', 'plain', 'children', 'children2', 'trim', 'trim']))
+    variant = draw(st.sampled_from(['plain', 'plain', 'children', 'children2', 'trim', 'trim', 'tuple']))
     lv = [draw(st.sampled_from([-1.5, -1., -.5, -.25, .25, .5, 1., 1.5, 0.75, -0.75])) for _ in range(4)]
-    return dict(kind=kind, degree=degree, variant=variant, levels=lv, maxrefine=draw(st.integers(0, 2)), childmask=[draw(st.booleans()) for _ in range(16)], scheme=draw(st.sampled_from(['gauss', 'gauss', 'gauss', 'uniform', 'bezier', 'vertex'])))
+    tdeg = []
+    if len(factors) == 1:      # a simplex on its own: a degree per direction, the scheme uses their sum as total degree
+        left = MAXDEG[factors[0]]
+        for _ in range(factors[0]):
+            k = draw(st.integers(0, min(left, 4))); left -= k; tdeg.append(k)
+    else:                      # a tensor product: one (total) degree per factor
+        tdeg = [draw(st.integers(0, min(MAXDEG[f], 5))) for f in factors]
+    return dict(kind=kind, degree=degree, tdeg=tdeg, variant=variant, levels=lv, maxrefine=draw(st.integers(0, 2)), childmask=[draw(st.booleans()) for _ in range(16)], scheme=draw(st.sampled_from(['gauss', 'gauss', 'gauss', 'uniform', 'bezier', 'vertex'])))
 
 
 def exact_monomials(factors, degree):
@@ -76,6 +83,36 @@ def check_gauss(case, rec):
                 raise Violation('getpoints-raised', f'{kind} gauss {degree}: {type(e).__name__}: {e}', where='getpoints:' + type(e).__name__)
             _check_points(ref, pts, kind, degree, factors, vol, scheme, rec, exact=scheme == 'gauss')
             rec.nontrivial = kind not in ('line', 'triangle', 'tetrahedron')
+        elif variant == 'tuple':
+            # a tuple degree: per direction for a simplex on its own (every x^a with a_k <= p_k exact), one total degree per factor for a tensor product
+            tdeg = tuple(case['tdeg'])
+            try:
+                pts = ref.getpoints('gauss', tdeg)
+            except Exception as e:
+                raise Violation('getpoints-raised', f'{kind} gauss {tdeg}: {type(e).__name__}: {e}', where='getpoints-tuple:' + type(e).__name__)
+            c = numpy.asarray(pts.coords); w = numpy.asarray(pts.weights)
+            if abs(w.sum() - vol) > 1e-13:
+                raise Violation('weights', f'{kind} gauss {tdeg}: weights sum to {w.sum()!r}, volume {vol!r}', where='weights:tuple')
+            for q in c:
+                if not ref.inside(q, 1e-12):
+                    raise Violation('point-outside', f'{kind} gauss {tdeg}: point {q.tolist()} outside the element', where='outside:tuple')
+            nmono = 0
+            if len(factors) == 1:
+                admissible = itertools.product(*[range(k + 1) for k in tdeg])
+            else:
+                admissible = (tuple(x for c in combo for x in c) for combo in itertools.product(*[[q for q in itertools.product(range(k + 1), repeat=f) if sum(q) <= k] for f, k in zip(factors, tdeg)]))
+            for powers in admissible:
+                val = 1.; o = 0
+                for f in factors:
+                    val *= simplex_monomial(powers[o:o + f]); o += f
+                got = float(numpy.prod(c ** numpy.array(powers), axis=1) @ w)
+                if abs(got - val) > 1e-13 * (1 + abs(val)) + 1e-15:
+                    raise Violation('inexact', f'{kind} gauss degree {tdeg} (per direction): monomial x^{powers} integrates to {got!r}, exact {val!r}', where='inexact-tuple:' + kind)
+                nmono += 1
+            rec.count('monomials_checked', nmono)
+            rec.nontrivial = len(set(tdeg)) > 1 or kind not in ('line',)
+            rec.label('ref:' + kind, 'variant:tuple', 'tuple-degree-sum:%d' % sum(tdeg))
+            return
         elif variant in ('children', 'children2'):
             # refined children, some of them removed: volume = sum of kept children, polynomials over the kept part
             crefs = list(ref.child_refs)
@@ -418,6 +455,14 @@ def build(t, cache):
         if n == 0: return s1, m1, g1
         if op == 'take':
             sel = sorted({v % n for v in t[2][:3]})
+            mode = t[2][3] % 4
+            if type(s1).__name__ != '_Add' and mode:
+                # any index array: a full-length permutation, a full-length selection with repeats, an unsorted selection. (A sum of samples serves its
+                # two terms one after the other, so there only increasing indices have a defined order.)
+                if mode == 1: sel = [(i * (t[2][4] % n | 1) + t[2][5]) % n for i in range(n)] if n > 1 else [0]
+                elif mode == 2: sel = [(v + i) % n for i, v in enumerate((t[2] * n)[:n])]
+                else: sel = [v % n for v in t[2][:3]]
+                if mode == 1 and len(set(sel)) != n: sel = list(range(n))[::-1]
             return s1.take_elements(numpy.array(sel)), Model([m1.elems[i] for i in sel], m1.spaces, m1.dims), g1
         if op == 'subset':
             emask = numpy.array([(t[2][i % 6] + i) % 2 == 0 for i in range(n)])
